@@ -39,6 +39,8 @@ var c10Files = map[string]c10FileDef{
 	"g1.c": {"g1.c", 3, 1, "g1"},
 	"g1.d": {"g1.d", 2, 2, "g1"},
 	"g2.x": {"g2.x", 2, 1, "g2"},
+	"g2.y": {"g2.y", 1, 3, "g2"},
+	"g2.z": {"g2.z", 2, 4, "g2"},
 }
 
 type c10Pending struct {
@@ -185,11 +187,16 @@ func c10Alphabet(thorough bool) func(hist []c10Action) []c10Action {
 	}
 }
 
-func c10Run(order string, hist []c10Action) vh.HistResult {
+func c10Run(order string, hist []c10Action) (res vh.HistResult) {
 	tags := []*Tag{{Name: "T", Order: order, ChunkSize: 1}}
 	q := NewTagged(tags, func(string) string { return "T" }, groupOf)
 	m := newC10Model(order)
-	res := vh.HistResult{Enabled: true}
+	res = vh.HistResult{Enabled: true}
+	defer func() {
+		if p := recover(); p != nil {
+			res = vh.HistResult{Enabled: true, Viol: fmt.Sprintf("the queue panicked (order %q, history %v): %v", order, hist, p)}
+		}
+	}()
 	outcome := ""
 	for i, a := range hist {
 		last := i == len(hist)-1
@@ -361,6 +368,62 @@ func contains(l []string, s string) bool {
 type c10Replay struct {
 	Order string      `json:"order"`
 	Hist  []c10Action `json:"history"`
+}
+
+// c10GroupsAlphabet: two groups; the first one holds placeholders (files the receiver already
+// has completely, queued after a restart to keep the chain) and one real file, the second one
+// three files that arrive while others are half emitted.
+func c10GroupsAlphabet(hist []c10Action) []c10Action {
+	pushed := map[string]int{}
+	for _, a := range hist {
+		if a.Op != "pop" {
+			pushed[a.File]++
+		}
+	}
+	out := []c10Action{{Op: "pop"}}
+	for _, n := range []string{"g1.p", "g1.q"} {
+		if pushed[n] == 0 {
+			out = append(out, c10Action{Op: "placeholder", File: n})
+		}
+	}
+	for _, n := range []string{"g1.a", "g2.x", "g2.y", "g2.z"} {
+		if pushed[n] == 0 {
+			out = append(out, c10Action{Op: "push", File: n})
+		}
+	}
+	return out
+}
+
+func TestC10Groups(t *testing.T) {
+	rep := vh.NewReport("C10", "two groups, placeholders in the first one")
+	defer rep.Write()
+	var rc c10Replay
+	if vh.ReplaySpec(&rc) {
+		r := c10Run(rc.Order, rc.Hist)
+		rep.Executions = 1
+		if r.Viol != "" {
+			rep.Violate(r.Class, r.Viol, rc)
+		}
+		return
+	}
+	depth := 9
+	if vh.Thorough() {
+		depth = 12
+	}
+	for _, order := range []string{sts.OrderFIFO, sts.OrderLIFO, sts.OrderAlpha, sts.OrderNone} {
+		order := order
+		h := &vh.Hist[c10Action]{
+			Rep:        rep,
+			Alphabet:   c10GroupsAlphabet,
+			Run:        func(hist []c10Action) vh.HistResult { return c10Run(order, hist) },
+			MaxDepth:   depth,
+			ShardDepth: 2,
+			NonTrivial: func(hist []c10Action, r vh.HistResult) bool { return len(hist) >= 3 },
+			Render:     func(hist []c10Action) interface{} { return c10Replay{Order: order, Hist: hist} },
+		}
+		h.Explore()
+	}
+	rep.Bound = fmt.Sprintf("all Push/Pop histories up to length %d over two groups: two placeholders and one file in the first, three files in the second; orders fifo, lifo, alphabetical, none; chunk size 1", depth)
 }
 
 func TestC10(t *testing.T) {
